@@ -108,6 +108,22 @@ BUILTIN_EXC = {
     'pyparsing.ParseException': 'Exception',
     'pp.ParseException': 'Exception',
     'yaml.scanner.ScannerError': 'Exception',
+    'NotADirectoryError': 'OSError', 'IsADirectoryError': 'OSError',
+    'InterruptedError': 'OSError', 'BlockingIOError': 'OSError',
+    'ChildProcessError': 'OSError', 'ConnectionError': 'OSError',
+    'BrokenPipeError': 'ConnectionError', 'TimeoutError': 'OSError',
+    'ProcessLookupError': 'OSError', 'BufferError': 'Exception',
+    'FloatingPointError': 'ArithmeticError',
+    'ModuleNotFoundError': 'ImportError', 'UnboundLocalError': 'NameError',
+    'IndentationError': 'SyntaxError', 'SystemError': 'Exception',
+    'ReferenceError': 'Exception', 'StopAsyncIteration': 'Exception',
+    'UnicodeTranslateError': 'UnicodeError',
+    'Warning': 'Exception', 'UserWarning': 'Warning',
+    'DeprecationWarning': 'Warning', 'PendingDeprecationWarning': 'Warning',
+    'FutureWarning': 'Warning', 'RuntimeWarning': 'Warning',
+    'SyntaxWarning': 'Warning', 'ImportWarning': 'Warning',
+    'UnicodeWarning': 'Warning', 'BytesWarning': 'Warning',
+    'ResourceWarning': 'Warning', 'EncodingWarning': 'Warning',
 }
 ALIASES = {'IOError': 'OSError', 'netaddr.core.AddrFormatError':
            'netaddr.AddrFormatError', 'pp.ParseException':
